@@ -174,7 +174,9 @@ def oracle(case, line):
         if kind == "B" and G.ref_info_unordered(unhex(body)):
             bad.append(("unordered-accepted", "bencoded torrent whose info dictionary is unordered somewhere inside was accepted"))
     # file system
-    if d["open"] is not None and d["open"] != "skip":
+    if " ERR:internal" in line or " ERR:other" in line or "close-err" in line or " REMOVE-ERR" in line:
+        bad.append(("lifecycle-crash", "open / hash check / start / stop / close / remove raised a non-storage error: " + line[-120:]))
+    elif d["open"] is not None and d["open"] != "skip":
         if d["open"] != "ok":
             bad.append(("open-failed", "open failed inside an empty scratch root: " + d["open"][:60]))
         elif d["fs"] != "ok":
